@@ -1,6 +1,6 @@
 # C19 — general expression parser (lexer, Pratt parser, constant folding, Display):
 # generators, an independent reference reader + exact-rational evaluator (the oracle),
-# comparison with the extracted model, classification of the remaining known findings (F16e/f residues, F16j).
+# comparison with the extracted model.
 import hashlib
 import itertools
 import sys
@@ -546,121 +546,9 @@ def is_op(t, names):
     return t is not None and t[0] == 'o' and t[1] in names
 
 
-def leftmost_is_number(e):
-    while True:
-        if e[0] == 'N':
-            return True
-        if e[0] == 'B' and not e[2]:
-            e = e[3]
-        elif e[0] == 'Q' and e[2][0] != 'P':
-            e = e[2]
-        else:
-            return False
-
-
-def implied_form(e):
-    """Display prints this product / power without spaces (2x, 2π, 2x^2, x2, x^2)"""
-    _, op, _, l, r = e
-    if op == 'Mul':
-        if l[0] == 'N' and r[0] in 'VC':
-            return True
-        if l[0] == 'N' and r[0] == 'B' and r[1] == 'Caret' and (r[2] or r[3][0] != 'N'):
-            return True
-        return l[0] in 'VC' and r[0] == 'N'
-    if op == 'Caret':
-        return l[0] in 'VC' and r[0] == 'N'
-    return False
-
-
-def eff_power(e):
-    return 4 if (e[1] == 'Mul' and implied_form(e)) else BP.get(e[1], 0)
-
-
-def display_issues(e, ctx=0, why=None):
-    """where does the printed text of tree e (read again with minimum binding power ctx) lose structure?
-    reasons: numnum (a number glued to a number), juxt (a product printed with " * " where it was bound tighter),
-    prefix / prefixmul (the operand of a prefix minus printed without the parentheses it needs), paren (anything else)"""
-    why = set() if why is None else why
-    k = e[0]
-    if k == 'F':
-        display_issues(e[2], 0, why)
-    elif k == 'Q':
-        c = e[2]
-        if c[0] == 'B' and not c[2]:
-            why.add('paren')
-        display_issues(c, 0 if c[0] == 'P' else 6, why)
-    elif k == 'P':
-        m = max(ctx, 2)
-        v = e[2]
-        if v[0] == 'B' and not v[2] and eff_power(v) < m:
-            why.add('prefixmul' if v[1] == 'Mul' else 'prefix')
-        display_issues(v, m, why)
-    elif k == 'B':
-        _, op, paren, l, r = e
-        c0 = 0 if paren else ctx
-        pw = BP.get(op, 0)
-        if op == 'Mul' and implied_form(e) and l[0] == 'N' and r[0] == 'B':
-            if not r[2] and leftmost_is_number(r[3]):
-                why.add('numnum')
-            display_issues(r, 5, why)
-            return why
-        if l[0] == 'P' and op == 'Caret':
-            display_issues(l, 0, why)
-        else:
-            if l[0] == 'B' and not l[2] and eff_power(l) < pw:
-                why.add('paren')
-            display_issues(l, c0, why)
-        if r[0] == 'B' and not r[2] and eff_power(r) < pw + 1:
-            why.add('juxt' if r[1] == 'Mul' else 'paren')
-        display_issues(r, pw + 1, why)
-    return why
-
-
-FINDINGS = {
-    'F16e': 'Display drops the parentheses of a prefix-minus group (the tree has no flag for them) where the operand is a product or a power in a tighter position: a/(-b*c) prints as a / -b * c and reads back as (a/(-b))*c; x^(-y^z) prints as x ^ -y ^ z (residue of F16e after e901a60)',
-    'F16f': 'Display still glues a coefficient to a power that starts with a number when the base is not a bare Number node: 5*2!^3 prints as 52! ^ 3, 5*2^3^4 as 52 ^ 3 ^ 4 (residue of F16f after e901a60)',
-    'F16j': 'Display prints a product bound by juxtaposition with " * ": x/yz prints as x / y * z and reads back as (x/y)*z (2/-xx prints as 2 / -x * x); needs a precedence-aware printer',
-}
-PRIORITY = ['F16f', 'F16e', 'F16j']
-
-
-def classify(case, impl):
-    """finding ids explaining each violated clause; None if some clause is unexplained.  Only Display classes remain:
-    a violation of totality, precedence or folding is never a known finding."""
-    clauses, d = violated_clauses(case, impl)
-    ids = []
-    ts = d.get('tokens') or []
-    for c in clauses:
-        got = []
-        if c in (C_DISP, C_DISP_ERR):
-            f = d['folded']
-            why = display_issues(f)
-            minus_group = any(a == ('lp',) and is_op(b, ('Sub',)) for a, b in zip(ts, ts[1:])) or f != d['unfolded']
-            if 'numnum' in why:
-                got.append('F16f')
-            if c == C_DISP:
-                if 'prefix' in why or ('prefixmul' in why and minus_group):
-                    got.append('F16e')
-                if 'juxt' in why or ('prefixmul' in why and not minus_group):
-                    got.append('F16j')
-        if not got:
-            return None, clauses
-        ids += got
-    return ids, clauses
-
-
-_seen_ids = {}
-
-
 def known(case, impl, clause):
-    ids, _ = classify(case, impl)
-    if not ids:
-        return None
-    # report the explanation seen least often so far, so that every class shows up in the summary
-    ids = sorted(set(ids), key=lambda i: (_seen_ids.get(i, 0), PRIORITY.index(i)))
-    k = ids[0]
-    _seen_ids[k] = _seen_ids.get(k, 0) + 1
-    return '%s %s' % (k, FINDINGS[k])
+    """no known finding is left on the current tree (F16a-l were repaired in /repo, F16h/i are outside the property)"""
+    return None
 
 
 # ------------------------------------------------------------------ comparison with the model
